@@ -10,6 +10,7 @@ import Tickit.Proof.LifeTop
 import Tickit.Proof.LifeTopEnd
 import Tickit.Proof.LifeFrames
 import Tickit.Proof.LifeOut
+import Tickit.Model.LifeTmp
 import Tickit.Gen.Life
 /-
   Property C08 — no API history touches freed or foreign memory, and everything is released.
@@ -906,5 +907,42 @@ example : (match yrunOps extractedTop {} [.x (.base (.newTerm 6 12 false)), .tbu
 example : (yrunOps extractedTop {} [.x (.base (.newTerm 6 12 false)), .tbuf 64, .tprint (List.replicate 26 0x61), .tbuf 8,
     .tprint (List.replicate 10 0x62), .tcaps true true false, .x (.base (.win 0 ⟨0, 0, 2, 2⟩ 0)), .tsetpen true richPen, .tbuf 0,
     .x (.base (.act (.unref 1))), .tsetpen false {}, .tflush, .x (.base .«end»)]).isOk = true := by decide +kernel
+
+/-! ## I/O watches of the toplevel instance: the slot tables of the default event loop -/
+
+/-- **io_dispatch_in_bounds**: after `poll`, the dispatch loop of `evloop_run` — whatever the callbacks it invokes
+    register (growing the tables with `realloc` as often as it takes), cancel or re-register — reads every `pollfds[idx]`
+    from the block `evdata->pollfds` points to at that moment and inside it, ends, and leaves the tables well-formed. -/
+theorem io_dispatch_in_bounds (io : IoSt) (I : IoInv io) :
+    ∃ io', IoSt.dispatch ioFuel 0 io.poll = .ok io' ∧ IoInv io' :=
+  dispatch_ok ioFuel 0 (poll_inv I) (by unfold ioFuel; omega) (by omega)
+
+/-- What a callback may do keeps the tables well-formed (`evloop_io` doubles them before they overflow). -/
+theorem io_callback_keeps_tables (io : IoSt) (I : IoInv io) (self : Nat) (acts : List IAct) :
+    IoInv (acts.foldl (fun io a => io.act self a) io) := acts_inv self acts I
+
+/-- The model tells the blocks apart: a read through a pointer taken before a `realloc` moved the table is a failure. -/
+example : (match ({ gen := 1, alloc := 8 } : IoSt).rd 0 1 with | .ub .mem _ => true | _ => false) = true := by decide
+
+/-- Non-vacuity: four watches registered from the callback of the first of two ready descriptors: the tables grow from 4
+    to 8 slots while the loop is in its second round, and it goes on to invoke the second and the new ones' neighbours. -/
+example : (match IoSt.dispatch ioFuel 0 ((({} : IoSt).watch { ready := true, acts := [.reg true, .reg true, .reg true, .reg true] }).watch { ready := true }).poll with
+    | .ok io => (io.alloc, io.gen, io.slots.size, io.log) | _ => (0, 0, 0, [])) = (8, 1, 7, ["I0", "I1"]) := by decide +kernel
+
+/-! ## the scratch block of a render buffer (runs of LINE cells in `tickit_renderbuffer_flush_to_term`) -/
+
+/-- Full statement (open): whatever the block holds and however long the run, the terminal is sent exactly the UTF-8 of
+    the run's characters — every byte read had been written, none lies beyond the block. -/
+def linerun_sends_what_was_written : Prop :=
+  ∀ (t : Tmp) (cps : List Nat), 6 ≤ t.size → ∃ t', t.lineRun cps = .ok (t', cps.flatMap utf8Bytes)
+
+/-- Instances: runs of 85, 86 and 200 box-drawing characters through the 256-byte block the buffer starts with (86 is
+    the first length at which `tmp_cat_utf8` has to grow it). -/
+example : (match ({} : Tmp).lineRun (List.replicate 85 0x2500) with | .ok r => (r.1.size, r.2.length) | _ => (0, 0)) = (256, 255) := by decide +kernel
+example : (match ({} : Tmp).lineRun (List.replicate 86 0x2500) with | .ok r => (r.1.size, r.2 == (List.replicate 86 0x2500).flatMap utf8Bytes) | _ => (0, false)) = (512, true) := by decide +kernel
+example : (match ({} : Tmp).lineRun (List.replicate 200 0x2500) with | .ok r => (r.1.size, r.2 == (List.replicate 200 0x2500).flatMap utf8Bytes) | _ => (0, false)) = (1024, true) := by decide +kernel
+
+/-- The model tells written bytes from fresh ones: a block grown *without* keeping its contents is refused by `Tmp.read`. -/
+example : (match ({ mem := List.replicate 512 none ++ [], len := 255 } : Tmp).read with | .ub .mem _ => true | _ => false) = true := by decide +kernel
 
 end Tickit.Props.C08
